@@ -108,10 +108,14 @@ Proof.
 Qed.
 
 (* ---- well-formedness for exactness ---- *)
+(* an optional part ({0,1} or {1,1}) may have a body that matches the empty string: no second iteration is ever needed,
+   so sre's last-position rule cannot stop one *)
+Definition opt1 (mn : N) (mxx : option N) : bool :=
+  match mxx with Some 1 => mn <=? 1 | _ => false end.
 Fixpoint wf_exact (r : regex) : bool :=
   match r with
   | RSeq a b | RAlt a b => wf_exact a && wf_exact b
-  | RRep _ _ _ b => negb (nullable b) && wf_exact b
+  | RRep _ mn mxx b => (negb (nullable b) || opt1 mn mxx) && wf_exact b
   | RGrp _ b => wf_exact b
   | RLook _ b => nogroups b && wf_exact b
   | _ => true
@@ -202,6 +206,37 @@ Proof.
       * destruct (k (st_i s) (st_p s) (st_rest s) (st_c s)); [discriminate|exact St].
 Qed.
 
+Lemma loop_completeX_opt b mb k g mn mxx : opt1 mn mxx = true -> completeX b mb ->
+  forall n s s', iterR (mx b) n s s' -> forall fuel,
+    mn <= N.of_nat n -> max_ok mxx mn (N.of_nat n) -> (2 <= length fuel)%nat -> kapp k s' <> None ->
+    loop mb k g mn mxx fuel 0 None (st_i s) (st_p s) (st_rest s) (st_c s) <> None.
+Proof.
+  intros Hopt Hb n s s' Hi fuel Hmn Hmx Hf Hk.
+  unfold opt1 in Hopt. destruct mxx as [[|[| |]]|]; try discriminate. apply N.leb_le in Hopt.
+  unfold max_ok in Hmx.
+  destruct fuel as [|f1 [|f2 fuel]]; try (simpl in Hf; lia).
+  (* the loop after one iteration: nothing more is tried *)
+  assert (After : forall s1 last, kapp k s1 <> None ->
+            loop mb k g mn (Some 1) (f2 :: fuel) (0 + 1) last (st_i s1) (st_p s1) (st_rest s1) (st_c s1) <> None).
+  { intros s1 last Hk1. cbn [loop]. replace (0 + 1 <? mn) with false by (symmetry; apply N.ltb_ge; lia).
+    cbn [more_ok]. replace (0 + 1 <? 1) with false by reflexivity. cbn [andb]. unfold kapp in Hk1.
+    destruct g; [exact Hk1|]. destruct (k (st_i s1) (st_p s1) (st_rest s1) (st_c s1)); [discriminate|congruence]. }
+  destruct n as [|[|n]]; cbn [iterR] in Hi.
+  - subst s'. cbn [loop]. replace (0 <? mn) with false by (symmetry; apply N.ltb_ge; lia). unfold kapp in Hk.
+    destruct g.
+    + destruct (if more_ok (Some 1) 0 && negb (same_pos None (st_i s)) then _ else None); [discriminate|exact Hk].
+    + destruct (k (st_i s) (st_p s) (st_rest s) (st_c s)); [discriminate|congruence].
+  - destruct Hi as (s1 & H1 & ->).
+    assert (St : forall last, mb (fun j p' r' c' => loop mb k g mn (Some 1) (f2 :: fuel) (0 + 1) last j p' r' c')
+                                 (st_i s) (st_p s) (st_rest s) (st_c s) <> None).
+    { intros last. apply (Hb _ s s1 H1). unfold kapp. apply After. exact Hk. }
+    cbn [loop]. destruct (0 <? mn); [apply St|]. cbn [more_ok same_pos andb negb]. replace (0 <? 1) with true by reflexivity. cbn [andb].
+    destruct g.
+    + specialize (St (Some (st_i s))). destruct (mb _ (st_i s) (st_p s) (st_rest s) (st_c s)); [discriminate|congruence].
+    + destruct (k (st_i s) (st_p s) (st_rest s) (st_c s)); [discriminate|apply St].
+  - exfalso. lia.
+Qed.
+
 Lemma mx_nogroups r s s' : mx r s s' -> nogroups r = true -> st_c s' = st_c s.
 Proof. intros H. apply mx_Matches in H. exact (proj1 nogroups_caps _ _ _ H). Qed.
 
@@ -235,12 +270,16 @@ Proof.
     + intros k s s' H Hk. cbn [mx] in H. cbn [exec].
       destruct (exec r1 k (st_i s) (st_p s) (st_rest s) (st_c s)) eqn:E1; [discriminate|].
       destruct H as [H|H]; [exfalso; exact (C1 _ s s' H Hk E1)|apply (C2 _ s s' H Hk)].
-  - (* repetition *) apply negb_true_iff in Hwf1. destruct (IHr Hwf2) as [S1 C1]. split.
+  - (* repetition *) destruct (IHr Hwf2) as [S1 C1]. split.
     + intros k i p rest c res H. cbn [exec] in H.
       eapply (loop_soundX r) in H; [|exact S1|unfold max_ok; destruct mx0; [lia|exact Logic.I]].
       destruct H as (n & s' & It & Hmn & Hmx & Hk). exists s'. split; [|exact Hk].
       exists n. split; [exact It|]. split; [lia|]. rewrite N.add_0_l in Hmx. exact Hmx.
     + intros k s s' H Hk. cbn [mx] in H. destruct H as (n & It & Hmn & Hmx). cbn [exec].
+      apply orb_prop in Hwf1 as [Hwf1|Hwf1].
+      2:{ apply (loop_completeX_opt r (exec r) k greedy mn mx0 Hwf1 C1 n s s' It); [exact Hmn|exact Hmx| |exact Hk].
+          unfold rep_fuel. rewrite app_length, repeat_length. generalize (N.to_nat mn). intros q. lia. }
+      apply negb_true_iff in Hwf1.
       apply (loop_completeX r (exec r) k greedy mn mx0 Hwf1 C1 n s s' It); [lia|rewrite N.add_0_l; exact Hmx| |intros l Hl; discriminate|exact Hk].
       unfold rep_fuel. rewrite app_length, repeat_length. change (N.to_nat 0) with O. generalize (N.to_nat mn). intros q. match goal with |- (?a + 1 + _ <= _ + ?b)%nat => change b with a; generalize a end. intros a. lia.
   - (* group *) destruct (IHr Hwf) as [S1 C1]. split.
@@ -353,9 +392,9 @@ Qed.
 (* ---- the generated patterns ---- *)
 From Rimu Require Import Types Tables Block TableFacts.
 
-(* three patterns have an optional part that can itself match the empty string; the theorem does not cover them *)
-Definition exact_exceptions : list str :=
-  [$"re_delimitedblocks_setDefinition_0"; $"re_blockattributes_parse_1"; $"replacements_default_9"].
+(* every generated pattern is covered (three of them have an optional part whose body can itself match the empty string:
+   admitted by [opt1]) *)
+Definition exact_exceptions : list str := [].
 
 Theorem generated_patterns_exact :
   forallb (fun nr => wf_exact (re_ast (snd nr)) || mem (fst nr) exact_exceptions) all_regexes = true.
